@@ -2,7 +2,7 @@
    (Second part of HeapOps.v; the copy paths come from HeapCopy.v.) *)
 From CV Require Import Core.Builder Core.ReaderFacts Core.ArithFacts Core.BuilderFacts Core.AllocProofs
   Core.WritePtrProofs Core.HeapProofs Core.CopyProofs Core.BuildOps Core.BuildValid Core.BuildInv Core.HeapInv Core.ReadBridge
-  Core.HeapOps Core.HeapCopy.
+  Core.HeapOps Core.HeapCopy Core.HeapCopySrc.
 From Coq Require Import ZifyBool ZifyNat.
 Open Scope Z_scope.
 
@@ -23,28 +23,77 @@ Proof.
   - split; [apply view_null|discriminate].
 Qed.
 
-(* storing any handle in a pointer slot (copies included) *)
+Lemma sview_as_struct sm p : sview sm p -> sview sm (as_struct p) /\ (p_valid (as_struct p) = true -> p_kind (as_struct p) = KStruct).
+Proof.
+  intros V. unfold as_struct. destruct (is_struct p) eqn:E.
+  - split; [exact V|]. intros _. unfold is_struct in E. destruct (p_kind p); auto; rewrite Bool.andb_false_r in E; discriminate.
+  - split; [apply sview_null|discriminate].
+Qed.
+
+(* storing any handle - of this message or of the source message - in a pointer slot *)
 Lemma slot_store st objs pads f sd ad hs w1 :
-  sinv st objs pads -> In (sd, ad) ((0, 0) :: flat_map slots objs) ->
+  sinv st objs pads -> spool st -> In (sd, ad) ((0, 0) :: flat_map slots objs) ->
   write_ptr f true (st_w st) sd ad (fst (hget st hs)) (snd (hget st hs)) false = Ok w1 ->
   nsegs (w_dst w1) < 4294967296 ->
   exists objs' pads', sinv (mkBSt w1 (st_h st)) objs' pads'.
 Proof.
-  intros S Hq HW Hns. pose proof S as (H & P & C).
-  rewrite (hget_dst st objs pads hs S) in HW.
-  destruct (hget_view st objs pads hs S) as [Vw _].
-  destruct (copy_all f) as [QW _].
-  destruct (QW (st_w st) objs pads (sd, ad) (snd (hget st hs)) false w1) as (eo & ep & T); auto.
-  - split; auto.
-  - exists (objs ++ eo), (pads ++ ep). apply sinv_of_tinv; auto.
+  intros S SP Hq HW Hns. pose proof S as (H & P & C).
+  destruct (fst (hget st hs)) eqn:El.
+  - pose proof (hget_view st objs pads hs S El) as Vw.
+    destruct (copy_all f) as [QW _].
+    destruct (QW (st_w st) objs pads (sd, ad) (snd (hget st hs)) false w1) as (eo & ep & T); auto.
+    + split; auto.
+    + exists (objs ++ eo), (pads ++ ep). apply sinv_of_tinv; auto.
+  - pose proof (hget_sview st hs SP El) as Vw.
+    destruct (copy_src_all f) as [QW _].
+    destruct (QW (st_w st) objs pads (sd, ad) (snd (hget st hs)) false w1) as (eo & ep & T); auto.
+    + split; auto.
+    + apply SP.
+    + exists (objs ++ eo), (pads ++ ep). apply sinv_of_tinv; auto.
+Qed.
+
+(* copying any struct handle - of this message or of the source message - into a struct view *)
+Lemma struct_store st objs pads f dst hs w1 :
+  sinv st objs pads -> spool st -> view objs dst -> (p_valid dst = true -> p_kind dst = KStruct) ->
+  copy_struct f true (st_w st) dst (fst (hget st hs)) (as_struct (snd (hget st hs))) = Ok w1 ->
+  nsegs (w_dst w1) < 4294967296 ->
+  exists objs' pads', sinv (mkBSt w1 (st_h st)) objs' pads'.
+Proof.
+  intros S SP Vd Kd HW Hns. pose proof S as (H & P & C).
+  destruct (fst (hget st hs)) eqn:El.
+  - pose proof (hget_view st objs pads hs S El) as Vq. destruct (view_as_struct objs _ Vq) as [Vsq Ksq].
+    destruct (copy_all f) as [_ QC].
+    destruct (QC (st_w st) objs pads dst (as_struct (snd (hget st hs))) w1) as (eo & ep & T); auto.
+    + split; auto.
+    + exists (objs ++ eo), (pads ++ ep). apply sinv_of_tinv; auto.
+  - pose proof (hget_sview st hs SP El) as Vq. destruct (sview_as_struct _ _ Vq) as [Vsq Ksq].
+    destruct (copy_src_all f) as [_ QC].
+    destruct (QC (st_w st) objs pads dst (as_struct (snd (hget st hs))) w1) as (eo & ep & T); auto.
+    + split; auto.
+    + apply SP.
+    + exists (objs ++ eo), (pads ++ ep). apply sinv_of_tinv; auto.
+Qed.
+
+(* the data setters of the theorem act on the message under construction *)
+Definition setter_handle (o : bop) : option Z :=
+  match o with BSetUint h _ _ _ | BSetBit h _ _ | BListSetUint h _ _ _ | BBitSet h _ _ => Some h | _ => None end.
+Definition dst_only (st : bstate) (o : bop) : Prop :=
+  match setter_handle o with Some h => fst (hget st h) = InDst | None => True end.
+
+(* a read op on a handle of the source message leaves the message under construction alone *)
+Lemma sinv_src_read st objs pads rl hs' :
+  sinv st objs pads -> sinv (mkBSt (w_set_rl (st_w st) InSrc rl) (st_h st ++ map (fun p => (InSrc, p)) hs')) objs pads.
+Proof.
+  intros (H & P & C). split; [exact H|]. split; [|exact C]. cbn [st_h]. unfold pool_ok in *. apply Forall_app. split; [exact P|].
+  apply Forall_forall. intros x Hx. apply in_map_iff in Hx. destruct Hx as (p & <- & _). cbn [fst]. discriminate.
 Qed.
 
 Theorem bstep_hinv e st objs pads o st' out :
-  sinv st objs pads -> sub_op o = true -> bstep e st o = (Some st', out) ->
+  sinv st objs pads -> spool st -> sub_op o = true -> dst_only st o -> bstep e st o = (Some st', out) ->
   nsegs (w_dst (st_w st')) < 4294967296 ->
   exists objs' pads', sinv st' objs' pads'.
 Proof.
-  intros S Hop. pose proof S as [H P]. unfold bstep. destruct o; try discriminate Hop; cbv zeta.
+  intros S SP Hop Hdo. pose proof S as [H P]. unfold bstep. destruct o; try discriminate Hop; cbv zeta.
   - (* NewStruct *)
     destruct (negb (valid_sid st sid)) eqn:EV.
     { intros E _. injection E as <- _. exists objs, pads. now apply sinv_push_null. }
@@ -218,8 +267,8 @@ Proof.
     exists objs, pads.
     apply andb_prop in Hop. destruct Hop as [Ho1 Ho2].
     assert (Hoff : 0 <= off) by lia. assert (Hn : n = 1 \/ n = 2 \/ n = 4 \/ n = 8) by (apply width_b_ok; exact Ho2).
-    pose proof (hget_dst st objs pads h S) as Hl. rewrite EH in Hl. cbn in Hl. subst l.
-    destruct (hget_view st objs pads h S) as [Vw _]. rewrite EH in Vw. cbn [snd] in Vw.
+    pose proof Hdo as Hl. unfold dst_only in Hl. cbn [setter_handle] in Hl. rewrite EH in Hl. cbn in Hl. subst l.
+    pose proof (hget_view st objs pads h S) as Vw. rewrite EH in Vw. cbn [fst snd] in Vw. specialize (Vw eq_refl).
     assert (Hval : p_valid (as_struct p) = true).
     { unfold set_in, lift0, struct_set_uint, dataAddress in ES. destruct (negb (p_valid (as_struct p)) || _) eqn:EE; cbn [bind] in ES; [discriminate|].
       destruct (p_valid (as_struct p)); auto; discriminate. }
@@ -243,8 +292,8 @@ Proof.
     unfold dset. destruct (set_in (st_w st) l _) as [w1| |] eqn:ES; intros E Hns; injection E as <- _;
       try (exists objs, pads; exact S).
     exists objs, pads. assert (Hn0 : 0 <= n) by lia.
-    pose proof (hget_dst st objs pads h S) as Hl. rewrite EH in Hl. cbn in Hl. subst l.
-    destruct (hget_view st objs pads h S) as [Vw _]. rewrite EH in Vw. cbn [snd] in Vw.
+    pose proof Hdo as Hl. unfold dst_only in Hl. cbn [setter_handle] in Hl. rewrite EH in Hl. cbn in Hl. subst l.
+    pose proof (hget_view st objs pads h S) as Vw. rewrite EH in Vw. cbn [fst snd] in Vw. specialize (Vw eq_refl).
     assert (Hval : p_valid (as_struct p) = true).
     { unfold set_in, lift0, struct_set_bit in ES. destruct (negb (p_valid (as_struct p) && _)) eqn:EE; [discriminate|].
       destruct (p_valid (as_struct p)); auto; discriminate. }
@@ -269,8 +318,8 @@ Proof.
     unfold dset. destruct (set_in (st_w st) l _) as [w1| |] eqn:ES; intros E Hns; injection E as <- _;
       try (exists objs, pads; exact S).
     exists objs, pads. assert (Hn : n = 1 \/ n = 2 \/ n = 4 \/ n = 8) by (apply width_b_ok; exact Hop).
-    pose proof (hget_dst st objs pads h S) as Hl. rewrite EH in Hl. cbn in Hl. subst l.
-    destruct (hget_view st objs pads h S) as [Vw _]. rewrite EH in Vw. cbn [snd] in Vw.
+    pose proof Hdo as Hl. unfold dst_only in Hl. cbn [setter_handle] in Hl. rewrite EH in Hl. cbn in Hl. subst l.
+    pose proof (hget_view st objs pads h S) as Vw. rewrite EH in Vw. cbn [fst snd] in Vw. specialize (Vw eq_refl).
     unfold set_in, lift0, list_set_uint in ES.
     destruct (primitiveElem true (as_list p) i (mkOS n 0)) as [addr| |] eqn:PE; try discriminate.
     assert (Hval : p_valid (as_list p) = true).
@@ -293,8 +342,8 @@ Proof.
     unfold dset. destruct (set_in (st_w st) l _) as [w1| |] eqn:ES; intros E Hns; injection E as <- _;
       try (exists objs, pads; exact S).
     exists objs, pads.
-    pose proof (hget_dst st objs pads h S) as Hl. rewrite EH in Hl. cbn in Hl. subst l.
-    destruct (hget_view st objs pads h S) as [Vw _]. rewrite EH in Vw. cbn [snd] in Vw.
+    pose proof Hdo as Hl. unfold dst_only in Hl. cbn [setter_handle] in Hl. rewrite EH in Hl. cbn in Hl. subst l.
+    pose proof (hget_view st objs pads h S) as Vw. rewrite EH in Vw. cbn [fst snd] in Vw. specialize (Vw eq_refl).
     assert (Hval : p_valid (as_list p) = true /\ 0 <= i < p_len (as_list p) /\ p_bit (as_list p) = true).
     { unfold set_in, lift0, bitlist_set in ES.
         destruct (negb (p_valid (as_list p)) || (i <? 0) || (i >=? p_len (as_list p))) eqn:E1; try discriminate;
@@ -333,7 +382,8 @@ Proof.
     destruct (negb (p_valid (as_struct p)) || (i >=? PointerCount (p_size (as_struct p)))) eqn:EE; [discriminate|].
     assert (Hval : p_valid (as_struct p) = true) by (destruct (p_valid (as_struct p)); auto; discriminate).
     destruct (as_struct_valid p Hval) as [Eas Ek]. rewrite Eas in *.
-    destruct (hget_view st objs pads h S) as [Vw _]. rewrite EH in Vw. cbn [snd] in Vw.
+    destruct l; [|discriminate EL].
+    pose proof (hget_view st objs pads h S) as Vw. rewrite EH in Vw. cbn [fst snd] in Vw. specialize (Vw eq_refl).
     destruct (struct_view_geom _ _ _ p H Vw Hval Ek) as [[E0 _]|(ho & Hin & Eseg & D0 & P0 & Olo & Ohi & _ & Hsl)].
     { exfalso. rewrite E0 in EE. cbn [PointerCount] in EE. rewrite Hval in EE. cbn [negb orb] in EE. lia. }
     destruct (obj_bounds _ _ _ _ H Hin) as (B1 & B2 & B3 & B4 & B5). rewrite Eseg in *.
@@ -353,7 +403,8 @@ Proof.
     assert (Hval : p_valid (as_list p) = true).
     { unfold primitiveElem in PE. destruct (p_valid (as_list p)); auto. cbn in PE. discriminate. }
     destruct (as_list_valid p Hval) as [Eas Ek]. rewrite Eas in *.
-    destruct (hget_view st objs pads h S) as [Vw _]. rewrite EH in Vw. cbn [snd] in Vw.
+    destruct l; [|discriminate EL].
+    pose proof (hget_view st objs pads h S) as Vw. rewrite EH in Vw. cbn [fst snd] in Vw. specialize (Vw eq_refl).
     destruct (list_view objs p Vw Hval Ek) as [Hin _].
     destruct (list_elem_geom _ _ _ p i (mkOS 0 1) addr H Hin Hval Ek PE ltac:(left; reflexivity)) as (_ & _ & E3 & _).
     assert (Hq0 : In (p_seg p, addr) ((0, 0) :: flat_map slots objs)).
@@ -370,30 +421,23 @@ Proof.
     assert (Hval : p_valid (as_list p) = true).
     { unfold list_struct in ED. destruct (p_valid (as_list p)); auto. cbn in ED. discriminate. }
     destruct (as_list_valid p Hval) as [Eas Ek]. rewrite Eas in *.
-    destruct (hget_view st objs pads h S) as [Vw _]. rewrite EH in Vw. cbn [snd] in Vw.
+    destruct l; [|discriminate EL].
+    pose proof (hget_view st objs pads h S) as Vw. rewrite EH in Vw. cbn [fst snd] in Vw. specialize (Vw eq_refl).
     destruct (list_view objs p Vw Hval Ek) as [Hin _].
     destruct (list_struct_view objs p i de Hin Hval Ek ED) as [Vde Kde].
-    pose proof (hget_dst st objs pads hs S) as Els. rewrite EQ in Els. cbn [fst] in Els. subst ls.
-    destruct (hget_view st objs pads hs S) as [Vq _]. rewrite EQ in Vq. cbn [snd] in Vq.
-    destruct (view_as_struct objs q Vq) as [Vsq Ksq].
-    destruct (copy_all (e_fuel e)) as [_ QC]. destruct P as [P C].
-    destruct (QC (st_w st) objs pads de (as_struct q) w1) as (eo & ep & T); auto.
-    + split; auto.
+    apply (struct_store st objs pads (e_fuel e) de hs w1); auto.
     + intros X. apply Kde. exact X.
-    + exists (objs ++ eo), (pads ++ ep). apply sinv_of_tinv; auto.
+    + rewrite EQ. exact ES.
   - (* Struct.CopyFrom *)
     destruct (hget st h) as [l p] eqn:EH. destruct (hget st hs) as [ls q] eqn:EQ.
     destruct (is_src l) eqn:EL; [discriminate|].
     unfold pset. destruct (copy_struct (e_fuel e) true (st_w st) (as_struct p) ls (as_struct q)) as [w1| |] eqn:ES; try discriminate.
     intros E Hns. injection E as <- _. cbn [st_w] in Hns.
-    destruct (hget_view st objs pads h S) as [Vp _]. rewrite EH in Vp. cbn [snd] in Vp.
-    pose proof (hget_dst st objs pads hs S) as Els. rewrite EQ in Els. cbn [fst] in Els. subst ls.
-    destruct (hget_view st objs pads hs S) as [Vq _]. rewrite EQ in Vq. cbn [snd] in Vq.
-    destruct (view_as_struct objs p Vp) as [Vsp Ksp]. destruct (view_as_struct objs q Vq) as [Vsq Ksq].
-    destruct (copy_all (e_fuel e)) as [_ QC]. destruct P as [P C].
-    destruct (QC (st_w st) objs pads (as_struct p) (as_struct q) w1) as (eo & ep & T); auto.
-    + split; auto.
-    + exists (objs ++ eo), (pads ++ ep). apply sinv_of_tinv; auto.
+    destruct l; [|discriminate EL].
+    pose proof (hget_view st objs pads h S) as Vp. rewrite EH in Vp. cbn [fst snd] in Vp. specialize (Vp eq_refl).
+    destruct (view_as_struct objs p Vp) as [Vsp Ksp].
+    apply (struct_store st objs pads (e_fuel e) (as_struct p) hs w1); auto.
+    rewrite EQ. exact ES.
   - (* SetRoot *)
     destruct (hget st hs) as [ls q] eqn:EQ.
     unfold pset. destruct (set_root (e_fuel e) (st_w st) ls q) as [w1| |] eqn:ES; try discriminate.
@@ -405,36 +449,36 @@ Proof.
     rewrite EQ. exact ES.
   - (* read-side ops *)
     cbn [sub_op] in Hop.
-    set (l1 := match op_handle o with Some h => fst (hget st h) | None => l end).
+    remember (match op_handle o with Some h => fst (hget st h) | None => l end) as l1 eqn:El1.
     destruct (step (cfg_of e l1) all_fixes (w_segs (st_w st) l1) (mkRS (map snd (st_h st)) (w_rl (st_w st) l1)) o) as [rs' v0] eqn:EST.
     intros E Hns. injection E as <- _. exists objs, pads.
     destruct (w_set_rl_dst (st_w st) l1 (rs_rl rs')) as (T1 & T2 & _).
+    destruct l1; [|apply sinv_src_read; exact S].
     destruct (ro_op o) eqn:ERO.
     + (* read-only accessors *)
       rewrite (ro_step_handles _ _ _ _ _ _ _ ERO EST). rewrite skipn_all2 by (rewrite map_length; lia). cbn [map]. rewrite app_nil_r.
       apply sinv_same_segs; auto.
     + (* ops that push a handle *)
       destruct P as [P C].
-      destruct o; try discriminate Hop; try discriminate ERO; cbn [op_handle] in l1; cbn [step] in EST.
+      destruct o; try discriminate Hop; try discriminate ERO; cbn [op_handle] in El1; cbn [step] in EST.
       * (* Root *)
-        destruct l; [|discriminate Hop]. subst l1. cbn [w_segs w_rl cfg_of rs_rl rs_handles] in EST.
+        cbn [w_segs w_rl cfg_of rs_rl rs_handles] in EST.
         destruct (root (e_cfgd e) (bm_data (w_dst (st_w st))) (bm_rl (w_dst (st_w st)))) as [r rl2] eqn:ER.
         injection EST as <- _. unfold push. cbn [rs_handles rs_rl]. rewrite skipn_push. cbn [map].
         apply read_push; auto. destruct r as [x| |]; try apply view_null.
         eapply (root_view (e_cfgd e) (w_dst (st_w st)) objs pads); eauto.
       * (* Struct.Ptr *)
-        assert (El : l1 = InDst) by (apply (hget_dst st objs pads h S)). rewrite El in *. cbn [w_segs w_rl cfg_of] in EST.
+        cbn [w_segs w_rl cfg_of] in EST.
         unfold handle in EST. cbn [rs_handles rs_rl] in EST. rewrite handle_hget in EST.
         destruct (struct_ptr _ _ _ _ _) as [r rl2] eqn:ER.
         injection EST as <- _. unfold push. cbn [rs_handles rs_rl]. rewrite skipn_push. cbn [map].
         apply read_push; auto. destruct r as [x| |]; try apply view_null.
-        destruct (hget_view st objs pads h S) as [Vw _].
+        pose proof (hget_view st objs pads h S (eq_sym El1)) as Vw.
         eapply (sptr_view (e_cfgd e) (w_dst (st_w st)) objs pads (snd (hget st h)) i); eauto. lia.
       * (* List.Struct *)
-        assert (El : l1 = InDst) by (apply (hget_dst st objs pads h S)). rewrite El in *.
         injection EST as <- _. unfold push. cbn [rs_handles rs_rl]. rewrite skipn_push. cbn [map].
         unfold handle. cbn [rs_handles]. rewrite handle_hget. set (p := snd (hget st h)).
-        destruct (hget_view st objs pads h S) as [Vw _]. fold p in Vw.
+        pose proof (hget_view st objs pads h S (eq_sym El1)) as Vw. fold p in Vw.
         apply read_push; auto.
         destruct (list_struct true (as_list p) i) as [x| |] eqn:ELS; try apply view_null.
         unfold list_struct in ELS.
@@ -448,13 +492,13 @@ Proof.
         right. right. left. exists (core p), i. split; [exact Hin|].
         unfold member_at. cbn [core p_kind p_bit p_len p_valid p_seg p_off p_size p_member]. repeat split; auto; lia.
       * (* PointerList.At *)
-        assert (El : l1 = InDst) by (apply (hget_dst st objs pads h S)). rewrite El in *. cbn [w_segs w_rl cfg_of] in EST.
+        cbn [w_segs w_rl cfg_of] in EST.
         unfold handle in EST. cbn [rs_handles rs_rl] in EST. rewrite handle_hget in EST.
         change (fx_upgrade all_fixes) with true in EST.
         destruct (ptrlist_at _ _ _ _ _ _) as [r rl2] eqn:ER.
         injection EST as <- _. unfold push. cbn [rs_handles rs_rl]. rewrite skipn_push. cbn [map].
         apply read_push; auto. destruct r as [x| |]; try apply view_null.
-        destruct (hget_view st objs pads h S) as [Vw _].
+        pose proof (hget_view st objs pads h S (eq_sym El1)) as Vw.
         eapply (plat_view (e_cfgd e) (w_dst (st_w st)) objs pads (snd (hget st h)) i); eauto.
   - (* round trip *)
     destruct (root _ _ _) as [r rl]. intros E _. injection E as <- _. exists objs, pads. exact S.
@@ -474,24 +518,176 @@ Proof.
         unfold seg_wf, blen in *. cbn [bs_data bs_cap]. lia.
       * unfold arena_wf. cbn [bm_arena m1]. discriminate.
     + cbn [st_h]. unfold pool_ok in *. rewrite Forall_forall in *. intros x Hx. apply in_map_iff in Hx.
-      destruct Hx as ([l0 p0] & <- & Hin0). destruct (P _ Hin0) as [El _]. cbn [fst] in El. subst l0. cbn [fst snd].
-      split; [reflexivity|apply view_null].
+      destruct Hx as ([l0 p0] & <- & Hin0). cbn [fst]. destruct l0; cbn [fst snd]; [intros _; apply view_null|discriminate].
+Qed.
+
+(* ------------------------------------------------------------------ the source message and its handles *)
+Lemma spool_push st w l p :
+  spool st -> w_src w = w_src (st_w st) -> (l = InSrc -> sview (w_src (st_w st)) p) -> spool (hpush st w l p).
+Proof.
+  intros [M P] E V. unfold spool, hpush. cbn [st_w st_h]. rewrite E. split; [exact M|].
+  apply Forall_app. split; [exact P|]. constructor; [exact V|constructor].
+Qed.
+
+Lemma spool_world st w : spool st -> w_src w = w_src (st_w st) -> spool (mkBSt w (st_h st)).
+Proof. intros [M P] E. unfold spool. cbn [st_w st_h]. rewrite E. split; auto. Qed.
+
+Lemma root_sview c sm rl p rl' : msg_ok sm -> cfg_strict c = true -> root c sm rl = (Ok p, rl') -> sview sm p.
+Proof.
+  intros Hm Hc HR. unfold root, lookup_segment in HR.
+  destruct ((0 <=? 0) && (0 <? zlen sm)) eqn:E0; [|discriminate].
+  destruct (negb _); [destruct (cfg_root c); discriminate|].
+  rewrite Hc in HR. apply (readPtr_sview sm rl 0 0 (depth_limit c) p rl'); auto. lia.
+Qed.
+
+Lemma sptr_sview c sm hp i rl p rl' : msg_ok sm -> cfg_strict c = true -> sview sm hp ->
+  struct_ptr c sm rl (as_struct hp) i = (Ok p, rl') -> sview sm p.
+Proof.
+  intros Hm Hc V HR. unfold struct_ptr in HR.
+  destruct (negb (p_valid (as_struct hp)) || (i >=? PointerCount (p_size (as_struct hp)))) eqn:EE.
+  { apply (f_equal fst) in HR. cbn [fst] in HR. apply Ok_inj in HR. subst p. apply sview_null. }
+  assert (Hval : p_valid (as_struct hp) = true) by (destruct (p_valid (as_struct hp)); auto; discriminate).
+  destruct (as_struct_valid hp Hval) as [Eas Ek]. rewrite Eas in *.
+  destruct (V Hval) as (_ & Sg & _). rewrite Hc in HR. unfold seg_of in HR.
+  eapply (readPtr_sview sm rl (p_seg hp)); eauto.
+Qed.
+
+Lemma plat_sview c sm hp i rl p rl' : msg_ok sm -> cfg_strict c = true -> sview sm hp ->
+  ptrlist_at c true sm rl (as_list hp) i = (Ok p, rl') -> sview sm p.
+Proof.
+  intros Hm Hc V HR. unfold ptrlist_at in HR.
+  destruct (primitiveElem true (as_list hp) i (mkOS 0 1)) as [addr| |] eqn:PE; try discriminate.
+  assert (Hval : p_valid (as_list hp) = true).
+  { unfold primitiveElem in PE. destruct (p_valid (as_list hp)); auto. cbn in PE. discriminate. }
+  destruct (as_list_valid hp Hval) as [Eas Ek]. rewrite Eas in *.
+  destruct (V Hval) as (_ & Sg & _). rewrite Hc in HR. unfold seg_of in HR.
+  eapply (readPtr_sview sm rl (p_seg hp)); eauto.
+Qed.
+
+(* every op leaves the source message and the source views of the pool intact (the data
+   setters by the premise [dst_only]) *)
+Theorem bstep_spool e st o st' out :
+  cfg_strict (e_cfgs e) = true -> spool st -> dst_only st o -> bstep e st o = (Some st', out) -> spool st'.
+Proof.
+  intros Hcs SP Hdo. pose proof SP as [Hm Pp]. unfold bstep.
+  assert (WP : forall f w d o l src fc w', write_ptr f true w d o l src fc = Ok w' -> w_src w' = w_src w).
+  { intros f. exact (proj1 (src_pres true f) true). }
+  assert (CP : forall f w dst l src w', copy_struct f true w dst l src = Ok w' -> w_src w' = w_src w).
+  { intros f. exact (proj2 (src_pres true f) true). }
+  assert (DS : forall h (F : bmsg -> res bmsg), fst (hget st h) = InDst ->
+             dset st (set_in (st_w st) (fst (hget st h)) F) = (Some st', out) -> spool st').
+  { intros h F El E. rewrite El in E. unfold dset, set_in in E.
+    destruct (lift0 (st_w st) (F (w_dst (st_w st)))) as [w1| |] eqn:EL; injection E as <- _; auto.
+    apply spool_world; auto. apply (lift0_src _ _ _ EL). }
+  assert (PS : forall r, (forall w1, r = Ok w1 -> w_src w1 = w_src (st_w st)) -> pset st r = (Some st', out) -> spool st').
+  { intros r Hr E. unfold pset in E. destruct r as [w1| |]; try discriminate. injection E as <- _. apply spool_world; auto. }
+  destruct o; cbv zeta.
+  1-5,7: (destruct (negb (valid_sid st sid)); [intros E; injection E as <- _; apply spool_push; auto; discriminate|];
+          unfold ctor; match goal with |- (match ?r with _ => _ end) = _ -> _ => destruct r as [[m1 p1]| |] end;
+          intros E; try discriminate E; injection E as <- _; apply spool_push; auto; discriminate).
+  - (* NewVoid *)
+    destruct (negb (valid_sid st sid)); [intros E; injection E as <- _; apply spool_push; auto; discriminate|].
+    destruct (newVoidList sid n); intros E; injection E as <- _; apply spool_push; auto; discriminate.
+  - (* NewInterface *)
+    destruct (negb (valid_sid st sid)); intros E; injection E as <- _; apply spool_push; auto; discriminate.
+  - (* AddCap *)
+    intros E. injection E as <- _. apply spool_world; auto.
+  - destruct (hget st h) as [l p] eqn:EH. intros E. apply (DS h (fun m0 => struct_set_uint m0 (as_struct p) off n v)).
+    + exact Hdo.
+    + rewrite EH. exact E.
+  - destruct (hget st h) as [l p] eqn:EH. intros E. apply (DS h (fun m0 => struct_set_bit m0 (as_struct p) n v)).
+    + exact Hdo.
+    + rewrite EH. exact E.
+  - destruct (hget st h) as [l p] eqn:EH. intros E. apply (DS h (fun m0 => list_set_uint m0 (as_list p) i n v)).
+    + exact Hdo.
+    + rewrite EH. exact E.
+  - destruct (hget st h) as [l p] eqn:EH. intros E. apply (DS h (fun m0 => bitlist_set m0 (as_list p) i v)).
+    + exact Hdo.
+    + rewrite EH. exact E.
+  - (* SetPtr *)
+    destruct (hget st h) as [l p]. destruct (hget st hs) as [ls q]. destruct (is_src l); [discriminate|].
+    apply PS. intros w1 E. unfold struct_set_ptr in E. destruct (negb _ || _); [discriminate|]. apply (WP _ _ _ _ _ _ _ _ E).
+  - (* PointerList.Set *)
+    destruct (hget st h) as [l p]. destruct (hget st hs) as [ls q]. destruct (is_src l); [discriminate|].
+    apply PS. intros w1 E. unfold ptrlist_set in E. destruct (primitiveElem _ _ _ _); cbn [bind] in E; try discriminate. apply (WP _ _ _ _ _ _ _ _ E).
+  - (* SetStruct *)
+    destruct (hget st h) as [l p]. destruct (hget st hs) as [ls q]. destruct (is_src l); [discriminate|].
+    apply PS. intros w1 E. unfold list_set_struct in E. destruct (p_bit _); [discriminate|].
+    destruct (list_struct _ _ _); cbn [bind] in E; try discriminate. apply (CP _ _ _ _ _ _ E).
+  - (* CopyFrom *)
+    destruct (hget st h) as [l p]. destruct (hget st hs) as [ls q]. destruct (is_src l); [discriminate|].
+    apply PS. intros w1 E. apply (CP _ _ _ _ _ _ E).
+  - (* SetRoot *)
+    destruct (hget st hs) as [ls q]. apply PS. intros w1 E. unfold set_root, set_root_gen in E.
+    destruct (bm_segs _); [discriminate|]. destruct (negb _); [discriminate|]. apply (WP _ _ _ _ _ _ _ _ E).
+  - (* read ops *)
+    remember (match op_handle o with Some h => fst (hget st h) | None => l end) as l1 eqn:El1.
+    destruct (step (cfg_of e l1) all_fixes (w_segs (st_w st) l1) (mkRS (map snd (st_h st)) (w_rl (st_w st) l1)) o) as [rs' v0] eqn:EST.
+    intros E. injection E as <- _.
+    destruct (w_set_rl_dst (st_w st) l1 (rs_rl rs')) as (_ & _ & T3).
+    unfold spool. cbn [st_w st_h]. rewrite T3. split; [exact Hm|]. apply Forall_app. split; [exact Pp|].
+    apply Forall_forall. intros x Hx. apply in_map_iff in Hx. destruct Hx as (p & <- & Hp). cbn [fst snd]. intros El. rewrite El in *.
+    cbn [cfg_of w_segs w_rl] in EST.
+    destruct o; cbn [step op_handle] in EST, El1.
+    + destruct (root _ _ _) as [r rl2] eqn:ER. injection EST as <- _. unfold push in Hp. cbn [rs_handles] in Hp. rewrite skipn_push in Hp.
+      destruct Hp as [<-|[]]. destruct r as [x| |]; try apply sview_null. apply (root_sview (e_cfgs e) _ _ _ _ Hm Hcs ER).
+    + unfold handle in EST. cbn [rs_handles rs_rl] in EST. rewrite handle_hget in EST.
+      destruct (struct_ptr _ _ _ _ _) as [r rl2] eqn:ER. injection EST as <- _. unfold push in Hp. cbn [rs_handles] in Hp. rewrite skipn_push in Hp.
+      destruct Hp as [<-|[]]. destruct r as [x| |]; try apply sview_null.
+      apply (sptr_sview (e_cfgs e) _ (snd (hget st h)) i _ _ _ Hm Hcs (hget_sview st h SP (eq_sym El1)) ER).
+    + injection EST as <- _. cbn [rs_handles] in Hp. rewrite skipn_all2 in Hp by (rewrite map_length; lia). destruct Hp.
+    + injection EST as <- _. cbn [rs_handles] in Hp. rewrite skipn_all2 in Hp by (rewrite map_length; lia). destruct Hp.
+    + injection EST as <- _. cbn [rs_handles] in Hp. rewrite skipn_all2 in Hp by (rewrite map_length; lia). destruct Hp.
+    + injection EST as <- _. unfold push in Hp. cbn [rs_handles] in Hp. rewrite skipn_push in Hp. destruct Hp as [<-|[]].
+      unfold handle. cbn [rs_handles]. rewrite handle_hget.
+      destruct (list_struct true (as_list (snd (hget st h))) i) as [x| |] eqn:ELS; try apply sview_null.
+      assert (Hval : p_valid (as_list (snd (hget st h))) = true).
+      { unfold list_struct in ELS. destruct (p_valid (as_list (snd (hget st h)))); auto. cbn in ELS. discriminate. }
+      destruct (as_list_valid _ Hval) as [Eas Ek]. rewrite Eas in *.
+      apply (list_struct_sview _ _ i x (hget_sview st h SP (eq_sym El1)) Ek ELS).
+    + unfold handle in EST. cbn [rs_handles rs_rl] in EST. rewrite handle_hget in EST. change (fx_upgrade all_fixes) with true in EST.
+      destruct (ptrlist_at _ _ _ _ _ _) as [r rl2] eqn:ER. injection EST as <- _. unfold push in Hp. cbn [rs_handles] in Hp. rewrite skipn_push in Hp.
+      destruct Hp as [<-|[]]. destruct r as [x| |]; try apply sview_null.
+      apply (plat_sview (e_cfgs e) _ (snd (hget st h)) i _ _ _ Hm Hcs (hget_sview st h SP (eq_sym El1)) ER).
+    + injection EST as <- _. cbn [rs_handles] in Hp. rewrite skipn_all2 in Hp by (rewrite map_length; lia). destruct Hp.
+    + injection EST as <- _. cbn [rs_handles] in Hp. rewrite skipn_all2 in Hp by (rewrite map_length; lia). destruct Hp.
+    + injection EST as <- _. cbn [rs_handles] in Hp. rewrite skipn_all2 in Hp by (rewrite map_length; lia). destruct Hp.
+    + injection EST as <- _. cbn [rs_handles] in Hp. rewrite skipn_all2 in Hp by (rewrite map_length; lia). destruct Hp.
+    + injection EST as <- _. cbn [rs_handles] in Hp. rewrite skipn_all2 in Hp by (rewrite map_length; lia). destruct Hp.
+    + injection EST as <- _. cbn [rs_handles] in Hp. rewrite skipn_all2 in Hp by (rewrite map_length; lia). destruct Hp.
+    + destruct (walk _ _ _ _ _ _ _ _) as [t rl1]. injection EST as <- _. cbn [rs_handles] in Hp. rewrite skipn_all2 in Hp by (rewrite map_length; lia). destruct Hp.
+  - (* round trip *)
+    destruct (root _ _ _) as [r rl]. intros E. injection E as <- _. exact SP.
+  - (* dump *)
+    destruct l; intros E; injection E as <- _; exact SP.
+  - (* reopen *)
+    intros E. injection E as <- _. unfold spool. cbn [st_w st_h w_src w_set_dst]. split; [exact Hm|].
+    apply Forall_forall. intros x Hx. apply in_map_iff in Hx. destruct Hx as ([l0 p0] & <- & Hin0). cbn [fst].
+    destruct l0; cbn [fst snd]; [discriminate|]. intros _. rewrite Forall_forall in Pp. apply (Pp _ Hin0 eq_refl).
 Qed.
 
 (* ------------------------------------------------------------------ op lists *)
 Definition sub_prog (ops : list bop) : bool := forallb sub_op ops.
 Definition seg_bound (st : bstate) : Prop := nsegs (w_dst (st_w st)) < 4294967296.
 
-Theorem brun_hinv e : forall ops st objs pads,
-  sinv st objs pads -> sub_prog ops = true -> Forall seg_bound (bstates e st ops) ->
+(* [dst_only] at every step of a run *)
+Fixpoint dst_run (e : benv) (st : bstate) (ops : list bop) : Prop :=
+  match ops with
+  | [] => True
+  | o :: r => dst_only st o /\ match bstep e st o with (Some st1, _) => dst_run e st1 r | _ => True end
+  end.
+
+Theorem brun_hinv e : cfg_strict (e_cfgs e) = true -> forall ops st objs pads,
+  sinv st objs pads -> spool st -> sub_prog ops = true -> dst_run e st ops -> Forall seg_bound (bstates e st ops) ->
   Forall (fun st' => exists objs' pads', sinv st' objs' pads') (bstates e st ops).
 Proof.
-  induction ops as [|o r IH]; intros st objs pads S Hp Hb; cbn [bstates] in *; constructor; eauto.
+  intros Hcs. induction ops as [|o r IH]; intros st objs pads S SP Hp Hd Hb; cbn [bstates] in *; constructor; eauto.
   cbn [sub_prog forallb] in Hp. apply andb_prop in Hp. destruct Hp as [Ho Hr].
-  inversion Hb as [|? ? _ Hb']; subst.
+  inversion Hb as [|? ? _ Hb']; subst. destruct Hd as [Hd1 Hd2].
   destruct (bstep e st o) as [[st1|] v] eqn:E; [|constructor].
   assert (B1 : seg_bound st1) by (destruct r; cbn [bstates] in Hb'; inversion Hb'; assumption).
-  destruct (bstep_hinv e st objs pads o st1 v S Ho E B1) as (objs1 & pads1 & S1).
+  destruct (bstep_hinv e st objs pads o st1 v S SP Ho Hd1 E B1) as (objs1 & pads1 & S1).
+  pose proof (bstep_spool e st o st1 v Hcs SP Hd1 E) as SP1.
   eapply IH; eauto.
 Qed.
 
@@ -589,18 +785,21 @@ Proof.
     + unfold nsegs, raw_message, zlen. cbn [bm_segs map length]. lia.
 Qed.
 
-(* [heap_inv_sublang]: every arena configuration that has a root word, every program of the
-   sub-language, every state the interpreter reaches while the message has fewer than 2^32
-   segments: every valid pool handle is a view of the object table and the pointer-level
-   invariant holds *)
+(* [heap_inv_sublang]: every arena configuration that has a root word, every source message
+   (any bytes 0..255), every program, every state the interpreter reaches while the message has
+   fewer than 2^32 segments: every valid pool handle is a view of the object table resp. a source
+   view, and the pointer-level invariant holds *)
 Theorem heap_inv_sublang a cfgd cfgs ncaps fuel src ops m :
   arena_spec_wf a -> root_cap_ok a -> create a (init_rlimit cfgd) = Ok m -> sub_prog ops = true ->
+  msg_ok src -> cfg_strict cfgs = true ->
   let st0 := mkBSt (mkW m src (init_rlimit cfgs)) [] in
+  dst_run (mkEnv cfgd cfgs ncaps fuel) st0 ops ->
   Forall seg_bound (bstates (mkEnv cfgd cfgs ncaps fuel) st0 ops) ->
   Forall (fun st => exists objs pads, sinv st objs pads) (bstates (mkEnv cfgd cfgs ncaps fuel) st0 ops).
 Proof.
-  intros Ha Hr Hc Hp st0 Hb.
+  intros Ha Hr Hc Hp Hms Hcs st0 Hd Hb.
   assert (B0 : seg_bound st0) by (destruct ops; cbn [bstates] in Hb; inversion Hb; assumption).
-  apply (brun_hinv _ ops st0 [] []); auto.
-  split; [cbn; eapply create_hinv; eauto|]. split; [constructor|intros h []].
+  apply (brun_hinv (mkEnv cfgd cfgs ncaps fuel) Hcs ops st0 [] []); auto.
+  - split; [cbn; eapply create_hinv; eauto|]. split; [constructor|intros h []].
+  - split; [exact Hms|constructor].
 Qed.
